@@ -609,6 +609,8 @@ class Expander:
                     if self_expr is not None and not self._is_static(cfn):
                         expr = _Rename({}, self_expr).visit(expr)
                     expr = _SpliceStar().visit(expr)
+                    if cmi is not mi:
+                        self._import_names([ast.Expr(value=expr)], cmi, mi)
                     expr = self._relocate(expr, call)
                     self._replace(s, call, expr)
                     self.inlined.append((qual, cq, "expr"))
